@@ -3,6 +3,7 @@
 package props
 
 import (
+	"golang.org/x/text/unicode/norm"
 	"crypto/sha1"
 	"encoding/binary"
 	"encoding/hex"
@@ -433,4 +434,24 @@ func panicClass(v string) string {
 func shortHash(s string) string {
 	h := sha1.Sum([]byte(s))
 	return hex.EncodeToString(h[:6])
+}
+
+// refParse is the harness's reference for "the tree parsed from these bytes" for documents that are
+// valid UTF-8 (every generated document is): the text is brought to NFC after soft hyphens are removed
+// (the normalisation the library documents for its byte-stream entry points) and parsed by x/net/html.
+// It never guesses an encoding.
+func refParse(page string) (*html.Node, error) {
+	norm1 := norm.NFD.String(page)
+	norm1 = strings.ReplaceAll(norm1, "\u00ad", "")
+	return html.Parse(strings.NewReader(norm.NFC.String(norm1)))
+}
+
+// sparseNonASCIIParagraph is English prose with a single non-ASCII word: the kind of page whose
+// encoding a statistical charset guesser gets wrong (or, for short pages, cannot decide).
+func sparseNonASCIIParagraph(special string, long bool) string {
+	prose := "The quick brown fox jumps over the lazy dog while the committee considered whether the proposal should be adopted by the general assembly later this year and the members agreed that further discussion would be necessary before any decision could be made about the matter at hand "
+	if !long {
+		prose = "The committee considered whether the proposal should be adopted later this year "
+	}
+	return "<p>" + prose + "We went to the " + special + " yesterday " + prose + "</p>\n"
 }
